@@ -228,10 +228,13 @@ def xy_tables(gappy=False):
     return X, Y, idx
 
 
-def xy_rate(idx, cut=None):
-    """sparse fixings; with `cut`, every fixing dated after idx[cut] is replaced"""
+def xy_rate(idx, cut=None, late=False):
+    """sparse fixings (with `late` the first fixing comes only at row 9, i.e. after most cuts);
+    with `cut`, every fixing dated after idx[cut] is replaced"""
     import pandas as pd
     r = pd.Series([0.02, 0.03, 0.04, 0.05], index=idx[[2, 6, 9, 12]], name="rf")
+    if late:
+        r = r.iloc[2:]
     if cut is not None:
         r = r.copy()
         r[r.index > idx[cut]] = 0.2
@@ -326,15 +329,16 @@ def _xy_work(chunk):
             continue
         # the rate table: fixings dated after the cut are altered
         if window == 1:
+          for late in (False, True):
             try:
-                rb = xy_trace(X, Y, transformer, idx[te], window, idx[cut], xy_rate(idx))
-                rp = xy_trace(X, Y, transformer, idx[te], window, idx[cut], xy_rate(idx, cut))
+                rb = xy_trace(X, Y, transformer, idx[te], window, idx[cut], xy_rate(idx, None, late))
+                rp = xy_trace(X, Y, transformer, idx[te], window, idx[cut], xy_rate(idx, cut, late))
                 out["evaluations"] += 1
                 out["nontrivial"] += 1
                 if rb != rp:
                     i = next((i for i, (a, b) in enumerate(zip(rp, rb)) if a != b), min(len(rp), len(rb)))
                     out["violations"].append(({"part": "xy", "transformer": transformer, "window": window, "te": te, "cut": cut, "pattern": "rate",
-                                               "gappy": gappy, "tier": tier},
+                                               "gappy": gappy, "tier": tier, "late": late},
                                               "altering interest-rate fixings dated after %s changed the output at %s"
                                               % (idx[cut].date(), rb[i][0] if i < len(rb) else "length"), ("xy-rate", transformer)))
             except Exception as ex:
@@ -426,8 +430,8 @@ def replay(case, **kw):
     if case["pattern"] is None:
         return []
     if case["pattern"] == "rate":
-        rb = xy_trace(X, Y, case["transformer"], idx[case["te"]], case["window"], idx[case["cut"]], xy_rate(idx))
-        rp = xy_trace(X, Y, case["transformer"], idx[case["te"]], case["window"], idx[case["cut"]], xy_rate(idx, case["cut"]))
+        rb = xy_trace(X, Y, case["transformer"], idx[case["te"]], case["window"], idx[case["cut"]], xy_rate(idx, None, case.get("late", False)))
+        rp = xy_trace(X, Y, case["transformer"], idx[case["te"]], case["window"], idx[case["cut"]], xy_rate(idx, case["cut"], case.get("late", False)))
         return [] if rb == rp else ["outputs up to the cut differ after altering later interest-rate fixings"]
     pat = case["pattern"] if isinstance(case["pattern"], str) else tuple(tuple(r) for r in case["pattern"])
     X2, Y2 = apply_pattern(X, Y, idx, case["cut"], pat)
